@@ -440,7 +440,10 @@ pub fn run_case(sc: &mut Scenario, op: &FOp, arm: &dyn Fn(), disarm: &dyn Fn() -
             v.watch();
         }
         let la = m.client(0).map(|c| c.latest()).unwrap_or(NIL);
+        // (the pair GetChild(latest) = not-found / AddVersion(latest) = accepted is C08's
+        // equivalence, asked of the very server object that saw the failure)
         let epi = vec![
+            SymOp::GetChild { c: 0, parent: la },
             SymOp::AddVersion { c: 0, parent: la, data: b"epilogue".to_vec() },
             SymOp::GetChild { c: 0, parent: la },
             SymOp::AddSnapshot { c: 0, v: m.next_sid, data: b"epilogue-snap".to_vec() },
